@@ -5,6 +5,13 @@ package main
 //   per converter                     the Go type asserted in From (`obj.(T)`), and the object
 //                                     types accepted by To's type switch / assertion
 //   getTypeConverter                  the order of its lookups (kind table, type table, switch)
+//   repaired sites                    per converter the expression `To` returns for an *Int object
+//                                     (narrowInt[T] or a plain conversion) and the conditions of the
+//                                     `if`s of `From`; the `if` conditions of ArrayConverter.To; the
+//                                     cases of AsObjects' type switch; the `if` conditions of
+//                                     Proxy.call that mention len(args) (object/proxy.go); the function
+//                                     vm.Run creates its machine with (vm/run.go); the condition under
+//                                     which getTypeConverter wraps a kind converter in a namedConverter
 
 import (
 	"bytes"
@@ -32,6 +39,26 @@ func c08_leanStrPairs(ps [][2]string) string {
 	return "[" + strings.Join(parts, ",\n  ") + "]"
 }
 
+// c08IfConds: the conditions of the `if` statements of a function body, in source order
+func c08IfConds(fset *token.FileSet, body *ast.BlockStmt) []string {
+	var out []string
+	ast.Inspect(body, func(n ast.Node) bool {
+		if is, ok := n.(*ast.IfStmt); ok {
+			out = append(out, c08Src(fset, is.Cond))
+		}
+		return true
+	})
+	return out
+}
+
+func c08_leanStrs(xs []string) string {
+	parts := make([]string, len(xs))
+	for i, x := range xs {
+		parts[i] = fmt.Sprintf("%q", x)
+	}
+	return "[" + strings.Join(parts, ", ") + "]"
+}
+
 func init() {
 	generators = append(generators, generator{"C08", func(repo string) string {
 		fset := token.NewFileSet()
@@ -42,7 +69,10 @@ func init() {
 		tables := map[string][][2]string{}
 		fromAssert := map[string]string{}
 		toAccept := map[string][]string{}
-		var lookupOrder []string
+		toIntCase := map[string]string{}
+		fromIfs := map[string][]string{}
+		var arrayToIfs, asObjectsCases []string
+		var lookupOrder, declaredTypeConds []string
 		for _, d := range f.Decls {
 			switch d := d.(type) {
 			case *ast.GenDecl:
@@ -73,12 +103,35 @@ func init() {
 				}
 			case *ast.FuncDecl:
 				if d.Name.Name == "getTypeConverter" && d.Recv == nil {
+					for _, c := range c08IfConds(fset, d.Body) {
+						if strings.Contains(c, "PkgPath") {
+							declaredTypeConds = append(declaredTypeConds, c)
+						}
+					}
 					ast.Inspect(d.Body, func(n ast.Node) bool {
 						switch x := n.(type) {
 						case *ast.IndexExpr:
 							lookupOrder = append(lookupOrder, c08Src(fset, x))
 						case *ast.SwitchStmt:
 							lookupOrder = append(lookupOrder, "switch "+c08Src(fset, x.Tag))
+							return false
+						}
+						return true
+					})
+					continue
+				}
+				if d.Name.Name == "AsObjects" && d.Recv == nil {
+					ast.Inspect(d.Body, func(n ast.Node) bool {
+						if ts, ok := n.(*ast.TypeSwitchStmt); ok {
+							for _, c := range ts.Body.List {
+								cc := c.(*ast.CaseClause)
+								if cc.List == nil {
+									asObjectsCases = append(asObjectsCases, "default")
+								}
+								for _, e := range cc.List {
+									asObjectsCases = append(asObjectsCases, c08Src(fset, e))
+								}
+							}
 							return false
 						}
 						return true
@@ -109,6 +162,7 @@ func init() {
 						return true
 					})
 					fromAssert[recv] = asserted
+					fromIfs[recv] = c08IfConds(fset, d.Body)
 				case "To":
 					var acc []string
 					ast.Inspect(d.Body, func(n ast.Node) bool {
@@ -128,13 +182,71 @@ func init() {
 						return true
 					})
 					toAccept[recv] = acc
+					if recv == "ArrayConverter" {
+						arrayToIfs = c08IfConds(fset, d.Body)
+					}
+					// what is returned for an *Int object
+					ast.Inspect(d.Body, func(n ast.Node) bool {
+						cc, ok := n.(*ast.CaseClause)
+						if !ok || len(cc.List) != 1 || c08Src(fset, cc.List[0]) != "*Int" {
+							return true
+						}
+						for _, st := range cc.Body {
+							if rs, ok := st.(*ast.ReturnStmt); ok && len(rs.Results) > 0 {
+								toIntCase[recv] = c08Src(fset, rs.Results[0])
+							}
+						}
+						return false
+					})
 				}
 			}
 		}
 		if len(tables["kindConverters"]) == 0 || len(tables["typeConverters"]) == 0 || len(lookupOrder) == 0 {
 			panic("object/typeconv.go: kindConverters / typeConverters / getTypeConverter not found")
 		}
+		// object/proxy.go: the `if` conditions of Proxy.call that mention len(args)
+		var callArgConds []string
+		pf, err := parser.ParseFile(fset, filepath.Join(repo, "object/proxy.go"), nil, 0)
+		if err != nil {
+			panic(err)
+		}
+		for _, d := range pf.Decls {
+			if fd, ok := d.(*ast.FuncDecl); ok && fd.Name.Name == "call" && fd.Recv != nil {
+				for _, c := range c08IfConds(fset, fd.Body) {
+					if strings.Contains(c, "len(args)") {
+						callArgConds = append(callArgConds, c)
+					}
+				}
+			}
+		}
+		// vm/run.go: the first call in Run (what creates the machine)
+		runCreates := "-"
+		rf, err := parser.ParseFile(fset, filepath.Join(repo, "vm/run.go"), nil, 0)
+		if err != nil {
+			panic(err)
+		}
+		for _, d := range rf.Decls {
+			if fd, ok := d.(*ast.FuncDecl); ok && fd.Name.Name == "Run" && fd.Recv == nil {
+				ast.Inspect(fd.Body, func(n ast.Node) bool {
+					if ce, ok := n.(*ast.CallExpr); ok && runCreates == "-" {
+						runCreates = c08Src(fset, ce.Fun)
+					}
+					return runCreates == "-"
+				})
+			}
+		}
 		var fa, ta [][2]string
+		var ti, fi [][2]string
+		for k, v := range toIntCase {
+			ti = append(ti, [2]string{k, v})
+		}
+		for k, v := range fromIfs {
+			if len(v) > 0 {
+				fi = append(fi, [2]string{k, strings.Join(v, " ; ")})
+			}
+		}
+		sort.Slice(ti, func(i, j int) bool { return ti[i][0] < ti[j][0] })
+		sort.Slice(fi, func(i, j int) bool { return fi[i][0] < fi[j][0] })
 		for k, v := range fromAssert {
 			fa = append(fa, [2]string{k, v})
 		}
@@ -158,6 +270,20 @@ func init() {
 		s += "def toAccepts : List (String × String) :=\n  " + c08_leanStrPairs(ta) + "\n\n"
 		s += "/-- `getTypeConverter`: its lookups, in source order -/\n"
 		s += "def lookupOrder : List String := [" + strings.Join(lo, ", ") + "]\n\n"
+		s += "/-- `getTypeConverter`: the `if` conditions that ask whether the type is a declared one -/\n"
+		s += "def declaredTypeConds : List String := " + c08_leanStrs(declaredTypeConds) + "\n\n"
+		s += "/-- per converter: the expression its `To` returns for an `*Int` object -/\n"
+		s += "def toIntCases : List (String × String) :=\n  " + c08_leanStrPairs(ti) + "\n\n"
+		s += "/-- per converter with an `if` in `From`: the conditions, in source order -/\n"
+		s += "def fromIfConds : List (String × String) :=\n  " + c08_leanStrPairs(fi) + "\n\n"
+		s += "/-- `ArrayConverter.To`: the conditions of its `if`s, in source order -/\n"
+		s += "def arrayToIfConds : List String := " + c08_leanStrs(arrayToIfs) + "\n\n"
+		s += "/-- `AsObjects`: the cases of its type switch, in source order -/\n"
+		s += "def asObjectsCases : List String := " + c08_leanStrs(asObjectsCases) + "\n\n"
+		s += "/-- object/proxy.go `Proxy.call`: the `if` conditions that mention len(args) -/\n"
+		s += "def callArgConds : List String := " + c08_leanStrs(callArgConds) + "\n\n"
+		s += "/-- vm/run.go `Run`: the function its first call goes to (what creates the machine) -/\n"
+		s += "def runCreatesWith : String := " + fmt.Sprintf("%q", runCreates) + "\n\n"
 		s += "end Risor.Generated.C08\n"
 		return s
 	}})
